@@ -93,6 +93,11 @@ func (its *MongoCollections) GetOperations(
 		opList = append(opList, opDoc.GetOperation())
 		sseqList = append(sseqList, opDoc.Sseq)
 	}
+	// Next() also returns false when fetching a further batch fails: what was read so far is then only a prefix of
+	// the range, and the callers take the last sequence number they got for the end of the log
+	if err := cursor.Err(); err != nil {
+		return nil, nil, errors.ServerDBQuery.New(ctx.L(), err.Error())
+	}
 	return opList, sseqList, nil
 }
 
